@@ -1980,8 +1980,10 @@ impl ResolveReport<'_> {
                 && a.suggested_diff == b.suggested_diff
             {
                 // Per the `dedup_by` documentation, if true is returned, `a`
-                // will be removed. Preserve its notable parents.
+                // will be removed. Preserve its notable parents and the
+                // criteria it needed.
                 b.notable_parents.extend_from_slice(&a.notable_parents);
+                b.suggested_criteria.unioned_with(&a.suggested_criteria);
                 true
             } else {
                 false
